@@ -221,6 +221,7 @@ structure CtlInv (st : LState τ) : Prop where
   compl : st.ctl.sched.collection ≠ none → Load.collectionIsCompleted st.ctl.sched = true
   nodup : (AList.keys st.ctl.sched.node2pending).Nodup
   keysLt : ∀ m ∈ AList.keys st.ctl.sched.node2pending, m < st.ctl.nextId
+  flagsLt : ∀ m ∈ AList.keys st.ctl.env.flags, m < st.ctl.nextId
 
 instance (st : LState τ) : Decidable (CtlInv st) :=
   decidable_of_iff
@@ -231,15 +232,16 @@ instance (st : LState τ) : Decidable (CtlInv st) :=
      (st.ctl.sched.collection.isNone = true → st.ctl.sched.pending = []) ∧
      (st.ctl.sched.collection.isNone = false → Load.collectionIsCompleted st.ctl.sched = true) ∧
      (AList.keys st.ctl.sched.node2pending).Nodup ∧
-     (∀ m ∈ AList.keys st.ctl.sched.node2pending, m < st.ctl.nextId))
+     (∀ m ∈ AList.keys st.ctl.sched.node2pending, m < st.ctl.nextId) ∧
+     (∀ m ∈ AList.keys st.ctl.env.flags, m < st.ctl.nextId))
     (by
       constructor
-      · rintro ⟨h1, h2, h3, h3', h4, h5, h6, h7, h8, h9⟩
-        refine ⟨h1, h2, h3, h3', h4, h5, ?_, ?_, h8, h9⟩
+      · rintro ⟨h1, h2, h3, h3', h4, h5, h6, h7, h8, h9, h10⟩
+        refine ⟨h1, h2, h3, h3', h4, h5, ?_, ?_, h8, h9, h10⟩
         · intro h; exact h6 (by rw [h]; rfl)
         · intro h; exact h7 (by cases hh : st.ctl.sched.collection <;> simp_all)
       · intro h
-        refine ⟨h.len, h.activeLt, h.activeNodup, h.stopShut, h.shutInv, h.tf, ?_, ?_, h.nodup, h.keysLt⟩
+        refine ⟨h.len, h.activeLt, h.activeNodup, h.stopShut, h.shutInv, h.tf, ?_, ?_, h.nodup, h.keysLt, h.flagsLt⟩
         · intro hh; exact h.nocol (by cases hc : st.ctl.sched.collection <;> simp_all)
         · intro hh; exact h.compl (by cases hc : st.ctl.sched.collection <;> simp_all))
 
